@@ -39,6 +39,8 @@ type Result struct {
 	SubNT []uint64
 	// Note is free-form text attached to samples.
 	Note string
+	// Inconclusive is set when the harness could not reach a verdict for this case.
+	Inconclusive string
 }
 
 type Violation struct {
@@ -185,6 +187,12 @@ func (r *Recorder) AddExtra(k string, n int64) {
 func (r *Recorder) Record(c any, res Result) {
 	r.mu.Lock()
 	defer r.mu.Unlock()
+	if res.Inconclusive != "" {
+		n, _ := r.Extra["inconclusive_cases"].(int64)
+		r.Extra["inconclusive_cases"] = n + 1
+		r.Extra["inconclusive_last"] = res.Inconclusive
+		return
+	}
 	n := int64(res.Sub)
 	if n == 0 {
 		n = 1
@@ -310,10 +318,24 @@ func Main(m *testing.M) {
 	os.Exit(code)
 }
 
+// HarnessProblem is panicked by harness code when the environment (not the
+// code under test) prevents a verdict: it is reported as inconclusive, never
+// as a violation.
+type HarnessProblem string
+
+// Inconclusive aborts the current case as a harness problem.
+func Inconclusive(format string, a ...any) {
+	panic(HarnessProblem(fmt.Sprintf(format, a...)))
+}
+
 // safeRun runs fn converting a panic into a Failure.
 func safeRun[C any](run func(C) Result, c C) (res Result) {
 	defer func() {
 		if p := recover(); p != nil {
+			if hp, ok := p.(HarnessProblem); ok {
+				res = Result{Inconclusive: string(hp)}
+				return
+			}
 			res.Fail = &Failure{Sig: "panic", Msg: fmt.Sprintf("panic: %v\n%s", p, debug.Stack())}
 		}
 	}()
